@@ -32,8 +32,9 @@ def run(ctx, rep):
     validated_field(ctx, rep)
     bounded_recursion(ctx, rep)
     # the one structural part of "a parsed value prints and re-parses to an equal value" that is visible in the parsers
-    from ..rules_parse import sign_distrib
+    from ..rules_parse import sign_distrib, prefix_remainder
     sign_distrib(rep, ctx.prog("Q"))
+    prefix_remainder(rep, ctx.prog("Q"))
 
 
 def validated_field(ctx, rep, rule="VALIDATED-FIELD"):
